@@ -5,5 +5,5 @@ From Coq Require Extraction ExtrOcamlBasic.
 From GV Require Import Config.Model Config.Monitors.
 Extraction Language OCaml.
 Extraction "config_model.ml" of_json of_json_strict to_json marshal effective method_table lookup
-  unresponsive_enabled update run_updates gcp_config service_config
+  unresponsive_enabled update shutdown step run_steps gcp_config service_config
   c17 c17core k_PJ1 k_PJ2 k_PJ3 accept_case bal_ok.
